@@ -15,7 +15,7 @@ EXPLANATION = ("Bounded stand-in: write_ndarray_to_yanny -> yanny(file) round tr
 UNDECIDED = ["strings of unbounded length / arbitrary characters: decided for all strings over the special-character alphabet up to the stated length only",
              "numpy's number formatting (repr of floats) and parsing: trusted"]
 
-ALPHA = ["a", " ", "\t", "#", ";", "{", "}", "\\"]
+ALPHA = ["a", " ", "\t", "#", ";", "{", "}", "\\", "\x0c"]
 
 
 def _strings(maxlen, allow_leading_brace=False, allow_close_brace=True, allow_trailing_backslash=True):
@@ -200,7 +200,7 @@ class RoundTrip:
                     except Exception as e:
                         bad("tables_names_order_rows", "raised %s: %s" % (type(e).__name__, e), dict(nrows=nrows, ntab=ntab))
             # ---- header pairs ------------------------------------------------------------------------
-            hdr_alpha = ["a", " ", "\t", ";", "{", "}", "\\", '"']
+            hdr_alpha = ["a", " ", "\t", ";", "{", "}", "\\", '"', "\x0c"]
             hv = [""]
             for n in range(1, L + 1):
                 hv += ["".join(t) for t in itertools.product(hdr_alpha, repeat=n)]
